@@ -12,12 +12,13 @@
 (***************************************************************************)
 EXTENDS Glob, TLC, Json, SequencesExt
 
-CONSTANTS Alphabet, MaxName, MidAtoms, MaxMid, Sufs, MaxRules, PoolPats, PoolVariants
+CONSTANTS Alphabet, MaxName, LongHeads, MidAtoms, MaxMid, Sufs, MaxRules, PoolPats, PoolVariants
 
 VARIABLES pat, stage, rules
 vars == <<pat, stage, rules>>
 
-Names == UNION {[1..n -> Alphabet] : n \in 1..MaxName}
+(* all names of length 1..MaxName-1, and those of length MaxName whose first character is in LongHeads *)
+Names == UNION {[1..n -> Alphabet] : n \in 1..(MaxName - 1)} \cup {n \in [1..MaxName -> Alphabet] : n[1] \in LongHeads}
 RECURSIVE Str(_)
 Str(s) == IF s = <<>> THEN "" ELSE Head(s) \o Str(Tail(s))
 
@@ -89,7 +90,7 @@ P_cls == <<".", "t", "[x0]", "*">>
 P_q == <<".", "t", "x", "?">>
 QuickSufs == {<<"0">>, <<"x", "0">>}
 FullSufs == {<<"0">>, <<"x", "0">>, <<"t">>, <<"\\*">>}
-QuickMid == {"*", "?", "[.t]", "[!t]", "\\*", "x"}
+QuickMid == {"*", "?", "[.t]", "[!t]", "\\*"}
 FullMid == {"*", "?", "[.t]", "[!t]", "[^t]", "[0-x]", "\\*", "\\t", "x", "0"}
 NoPats == {}
 F_all == <<"*">>
@@ -111,7 +112,7 @@ FirstMatchLaw ==
        IN Place(front, f, s) # "orphan" => Place(rules, f, s) = Place(front, f, s) /\ Kept(rules, f, s) = Kept(front, f, s)
 (* anti-vacuity inside the model: wild's index model does depart from Place somewhere *)
 WildIndexAgrees == \A fi \in 1..Len(Files), si \in 1..Len(PNames) : WildClass(rules, Files[fi], PNames[si]) = "agrees"
-ASSUME PrintT(<<"REPLAY", ToJson([kind |-> "meta", alphabet |-> SetToSeq(Alphabet), maxname |-> MaxName,
+ASSUME PrintT(<<"REPLAY", ToJson([kind |-> "meta", alphabet |-> SetToSeq(Alphabet), maxname |-> MaxName, longheads |-> SetToSeq(LongHeads),
                                     files |-> [i \in 1..Len(Files) |-> Str(Files[i])],
                                     pnames |-> [i \in 1..Len(PNames) |-> Str(PNames[i])]])>>)
 
